@@ -182,6 +182,10 @@ func WorkerMain(t *testing.T, harnesses map[string]Harness) {
 			}
 			return r
 		}
+		s.SetNote(func(tag string) {
+			fmt.Fprintf(out, "VSIM N %s\n", tag)
+			out.Flush()
+		})
 		s.SetCheckpoint(func(info RunInfo) {
 			// WallUs is computed with the real clock only outside a bubble; inside it is fake, harmless
 			emit("P", build(info))
